@@ -6,6 +6,9 @@ import subprocess
 
 V = os.path.dirname(os.path.dirname(os.path.abspath(__file__)))
 claims = json.load(open(os.path.join(V, "bin", "claims.json")))
+import glob
+for f in sorted(glob.glob(os.path.join(V, "bin", "claims.d", "*.json"))):
+    claims[os.path.basename(f)[:-5]] = json.load(open(f))
 props = [json.loads(l)["id"] for l in open(os.path.join(V, "properties.jsonl"))]
 log = subprocess.run(["git", "-C", "/repo", "log", "--format=%H %s"], stdout=subprocess.PIPE, text=True).stdout.splitlines()
 hook_commits = [l.split()[0] for l in log if l.split(" ", 1)[1].startswith("verif:")]
